@@ -47,6 +47,8 @@ HELPERS = [
     ["S", "HE0", []],                              # empty struct (GNU C: size 0)
     ["O", "HOb", [ptr, i32]],                      # class instance struct
     ["B", "HBx", [i8, i64]],                       # boxed struct
+    ["P", "HPt", "pointer"], ["P", "HDg", "disguised"],   # typedef struct _X *X;
+    ["A", "HAl", "gint64"], ["A", "HAs", "gushort"],      # typedef gint64 X;
 ]
 HENV = dict((d[1], d) for d in HELPERS)
 HLOCAL = set(HENV)
@@ -70,6 +72,8 @@ VARIANTS = [(n, ["b", n]) for n in (
     ('cbt', ["ct", "HCb"]), ('parr', ["pa", ["b", "gint"]]),
     ('glist', ["gl", "list"]), ('gslist', ["gl", "slist"]), ('ghash', ["gl", "hash"]), ('gerror', ["gl", "error"]),
     ('empty', ["v", "HE0"]), ('eobj', ["v", "HOb"]), ('ebox', ["v", "HBx"]),
+    ('ptrrec', ["d", "HPt"]), ('disguised', ["d", "HDg"]), ('alias64', ["al", "HAl"]), ('alias16', ["al", "HAs"]),
+    ('arr2alias', ["a", ["al", "HAs"], 3]),
 ]
 ATOMS = CORE + VARIANTS
 NCORE = len(CORE)
@@ -187,7 +191,7 @@ def expand(spec):
                       [oc, "O", _ctx_members(ospec, "M")]], 'm': None, 'u': None}
     if fam == 'en':
         _, lo, hi, flags = spec
-        vals = [lo] if lo == hi else [lo, hi]
+        vals = [lo] if lo == hi else ([hi, lo] if flags else [lo, hi])     # both member orders
         big = M.enum_abi(vals)[0] == 8
         return {'k': 'en:%s:%d..%d' % ('bitfield' if flags else 'enumeration', lo, hi), 'f': fam,
                 'd': [["E", "E", vals, flags], ["S", "O", [i8, ["e", "E"], i8]], ["U", "V", [["a", ["e", "E"], 3], i8]]],
@@ -238,10 +242,11 @@ def all_specs(tier):
         for mid in range(len(N2_MID)):
             for outer in range(len(N2_OUT)):
                 out.append(('n2', ic, idx, mid, outer))
-    for a, lo in enumerate(ENUM_VALUES):
-        for hi in ENUM_VALUES[a:]:
-            for flags in (0, 1):
-                out.append(('en', lo, hi, flags))
+    pairs = [(lo, hi) for a, lo in enumerate(ENUM_VALUES) for hi in ENUM_VALUES[a:]]
+    pairs.sort(key=lambda p: (max(abs(p[0]), abs(p[1])), p))        # simplest first
+    for lo, hi in pairs:
+        for flags in (0, 1):
+            out.append(('en', lo, hi, flags))
     for c in X_CASES:
         out.append(('xs' if c[2] in SOLO_MECHS else 'x', c[0]))
     return out
@@ -334,7 +339,7 @@ def plausible(size, align):
 def compare_decl(d, env, gcc, ent, part=None):
     """-> list of (aspect, text); [] = the typelib agrees with the C ABI (or the outcome is UNSPECIFIED)"""
     name = d[1]
-    if d[0] == 'C' or d[0] == 'O':
+    if d[0] in ('C', 'O', 'P', 'A'):
         return []
     if ent is None:
         return [('missing-entry', '%s has no typelib entry' % name)]
@@ -471,9 +476,6 @@ def _work(chunk):
     tier, batches = chunk
     b = cbuild.build(False)
     wd = tools.workdir('c08')
-    isolations = 0
-    confirmed = 0
-    seen = set()
     try:
         # one C program for the whole chunk (gcc's fixed cost dominates), one GIR per batch and order
         allcases = []
@@ -481,6 +483,10 @@ def _work(chunk):
             allcases.append([('B%dL%d' % (j, i), expand(s)) for i, s in enumerate(specs)])
         gcc = gcc_numbers([x for cs in allcases for x in cs], wd, 'b')
         for (fam, specs), cases in zip(batches, allcases):
+            # caps and de-duplication are per batch, so that counts do not depend on how batches are grouped
+            isolations = 0
+            confirmed = 0
+            seen = set()
             part.add(states=len(cases), transitions=sum(len(d[2]) for _, c in cases for d in c['d'] if d[0] != 'C'))
             orders = orders_for(fam, tier)
             for pfx, c in cases:
@@ -505,7 +511,7 @@ def _work(chunk):
                 part.add(evaluations=1)
                 if ents is None:
                     part.outcome(('batch-rejected', fam))
-                    if isolations >= 2:
+                    if isolations >= 1:
                         part.violation('rejected-batch:%s' % fam, 'g-ir-compiler exit %d on a batch of %d %s layouts: %s'
                                        % (rc, len(cases), fam, err.strip()[-300:]),
                                        {'batch': [list(s) for s in specs], 'order': list(order), 'tier': tier})
@@ -521,7 +527,7 @@ def _work(chunk):
                 for d in HELPERS:
                     hp += compare_decl(d, HENV, gcc.get(('', d[1])), ents.get(d[1]))
                 for a, t in hp:
-                    part.violation('helper|%s|%s' % (t.split(':')[0], a), t,
+                    part.violation('helper|%s|%s' % (t.split(':')[0].split(' ')[0].split('.')[0], a), t,
                                    {'spec': list(specs[0]), 'order': list(order), 'tier': tier})
                 for (pfx, c), spec in zip(cases, specs):
                     probs = compare_case(c, pfx, gcc, ents)
@@ -559,6 +565,10 @@ def run(ctx):
         raise HarnessBroken('no %s' % GCC)
     cbuild.build(False)
     specs = all_specs(ctx.tier)
+    only = os.environ.get('C08_FAMILIES')       # development aid: restrict to some families (marks the run capped)
+    if only:
+        specs = [x for x in specs if x[0] in only.split(',')]
+        ctx.cap('C08_FAMILIES=%s (development filter)' % only)
     by_fam = {}
     for s in specs:
         by_fam.setdefault(s[0], []).append(s)
@@ -598,7 +608,7 @@ def run(ctx):
         'bit-fields are executed but UNSPECIFIED (no offset semantics in the format); the field offsets of <class> '
         'entries are not compared (the statement covers structures and unions)',
     ]
-    if ctx.cov['evaluations'] < 10 or len(ctx._outcomes) < 20:
+    if not only and (ctx.cov['evaluations'] < 10 or len(ctx._outcomes) < 20):
         raise HarnessBroken('vacuous exploration: %d compiler runs, %d outcomes' % (ctx.cov['evaluations'],
                                                                                    len(ctx._outcomes)))
 
